@@ -20,6 +20,7 @@ import (
 	"sort"
 	"strconv"
 	"sync"
+	"sync/atomic"
 	"time"
 
 	"github.com/TheManticoreProject/Manticore/network/netbios/nbtns"
@@ -135,11 +136,67 @@ func ntEqual(a, b map[string]ntRec) bool {
 	return true
 }
 
+var ntTTLTurn int64
+
+// c17SpecialTTLs: a query result is a slice of the caller's own whatever lifetime the record was registered with -- in
+// particular with the ttl values a standard singles out (RFC 1002 4.2.1.3: a TTL of 0 means an infinite lifetime) and the
+// extremes of the type.  No expiry is involved (QueryName does not look at the clock), so the histories are exact.
+func c17SpecialTTLs(c *h.Ctx) {
+	addr := func(i int) net.IP { return net.IPv4(10, 9, 0, byte(i)).To4() }
+	for _, ttl := range []time.Duration{0, 1, -1, time.Second, 1<<63 - 1, -(1 << 63)} {
+		for owners := 1; owners <= 3; owners++ {
+			tb := nbtns.NewNetBIOSNameServer(false)
+			ty := nbtns.Group
+			if owners == 1 {
+				ty = nbtns.Unique
+			}
+			for i := 1; i <= owners; i++ {
+				tb.RegisterName("SPECIAL", ty, addr(i), ttl)
+			}
+			c.Case(fmt.Sprintf("special-ttl:%d:%d", int64(ttl), owners))
+			smp := map[string]interface{}{"ttl_ns": int64(ttl), "owners": owners}
+			r, _, err := tb.QueryName("SPECIAL")
+			c.Exec(1)
+			if err != nil || len(r) != owners {
+				c.Drift("nbtns.NetBIOSNameServer.query", "special-ttl:not-found", fmt.Sprintf("ttl %d: %d owners registered, query gives %v %v", int64(ttl), owners, r, err), smp)
+				continue
+			}
+			before := fmt.Sprint(r)
+			// (1) later table updates do not change the result
+			if owners > 1 {
+				tb.ReleaseName("SPECIAL", addr(1))
+			} else {
+				tb.RefreshName("SPECIAL", addr(1))
+			}
+			tb.RegisterName("SPECIAL", ty, addr(9), ttl)
+			c.Exec(2)
+			if now := fmt.Sprint(r); now != before {
+				c.Fail("nbtns.NetBIOSNameServer.query", "snapshot-changed", fmt.Sprintf("registered with ttl %d ns: the slice returned read %s, after a release and a registration it reads %s", int64(ttl), before, now), smp)
+				continue
+			}
+			// (2) the caller's writes into its result do not reach the table
+			want, _, _ := tb.QueryName("SPECIAL")
+			wantText := fmt.Sprint(want)
+			r2, _, _ := tb.QueryName("SPECIAL")
+			for i := range r2 {
+				r2[i] = net.IPv4(66, 66, 66, 66).To4()
+			}
+			got, _, _ := tb.QueryName("SPECIAL")
+			c.Exec(3)
+			if fmt.Sprint(got) != wantText {
+				c.Fail("nbtns.NetBIOSNameServer.query", "result-is-table-storage", fmt.Sprintf("registered with ttl %d ns: after the caller overwrote the slice it had been given, the owners read %v (were %s)", int64(ttl), got, wantText), smp)
+			}
+		}
+	}
+}
+
 // ntApply performs one operation on the real table and returns the observed result.
 func ntApply(tb *nbtns.NetBIOSNameServer, op, n, t, a string, e bool) (ntRes, []net.IP) {
-	ttl := time.Hour
+	// the specification knows two classes of ttl (alive / already expired); the concrete value rotates within its class
+	turn := atomic.AddInt64(&ntTTLTurn, 1)
+	ttl := []time.Duration{time.Hour, 24 * time.Hour, 1 << 62, time.Minute}[turn%4]
 	if e {
-		ttl = -time.Hour
+		ttl = []time.Duration{-time.Hour, -1, -(1 << 62), -time.Minute}[turn%4]
 	}
 	res := ntRes{Ow: []string{}}
 	switch op {
@@ -401,6 +458,7 @@ func c17Graph(c *h.Ctx) error {
 	close(ch)
 	wg.Wait()
 	c.Set("query_then_ops_histories", aliasRuns)
+	c17SpecialTTLs(c)
 	if unreachable > 0 {
 		return fmt.Errorf("%d edges start in states unreachable in the emitted graph", unreachable)
 	}
